@@ -5,7 +5,7 @@
     [Sim.exec] (over [EvalImpl.eval_impl], the stack machine of eval.rs); the
     semantics is [SimSpec.spec_run], written with [System.init_seq],
     [System.next_env], [System.upd_bv] and [Eval.eval] only. *)
-From Patronus Require Import Sim SimBasics SimStoreProofs SimProofs SimInitProofs SimReplayProofs SimExamples.
+From Patronus Require Import Sim SimBasics SimStoreProofs SimProofs SimInitProofs SimReplayProofs SimCanonProofs SimExamples.
 Open Scope N_scope.
 
 (** For every well-formed system ([sim_ok]: well typed, declared symbols
@@ -108,3 +108,17 @@ Theorem C07_step_count :
     run sy s h = Done (s', outs) -> steps s' = steps s + N.of_nat (count_steps h).
 Proof. exact step_count_lemma. Qed.
 Print Assumptions C07_step_count.
+
+(** Every value read is the canonical representative of its width ([v < 2^w];
+    every array element below [2^dw]), provided the generated initial values
+    and the values set are of the width of their symbol ([op_canon]). *)
+Theorem C07_values_canonical :
+  forall (sy : sys) (h : list op),
+    sim_ok sy = true -> hist_ok sy h = true -> Forall (op_canon sy) h ->
+    exists s outs, run sy sim0 h = Done (s, outs) /\ Forall obs_canon outs.
+Proof. exact values_canonical_lemma. Qed.
+Print Assumptions C07_values_canonical.
+
+Example C07_canonical_example :
+  sim_ok ex_sys = true /\ hist_ok ex_sys ex_hist_canon = true /\ Forall (op_canon ex_sys) ex_hist_canon.
+Proof. exact ex_canon_ok. Qed.
